@@ -131,7 +131,27 @@ func (p *mutexProvider) ReleaseZlibWriter(w *zlib.Writer) {
 // provider must not be swapped under them and nothing observed afterwards can be judged. The workload stops.
 var c13Abort int32
 
+// c13Provider builds a provider under the watchdog: a constructor that never returns (it fills its cache with blocking
+// sends) would otherwise hang the whole check until the driver's timeout.
 func c13Provider(name string) restful.CompressorProvider {
+	var p restful.CompressorProvider
+	done := make(chan struct{})
+	go func() {
+		defer close(done)
+		p = c13NewProvider(name)
+	}()
+	if blocked, timedOut := mon.WaitQuiescent(done, 30*time.Second); timedOut {
+		atomic.StoreInt32(&c13Abort, 1)
+		c13ConstructorBlocked = append(c13ConstructorBlocked, fmt.Sprintf("%s: %v", name, blocked))
+		return restful.NewSyncPoolCompessors() // never used for a verdict: the workload stops (c13Abort)
+	}
+	return p
+}
+
+// c13ConstructorBlocked is reported by c13 itself (the constructor runs where no case context is at hand).
+var c13ConstructorBlocked []string
+
+func c13NewProvider(name string) restful.CompressorProvider {
 	switch name {
 	case "bounded0":
 		return restful.NewBoundedCachedCompressors(0, 0)
@@ -865,6 +885,12 @@ func c13(ctx *core.Ctx) {
 	atomic.StoreInt32(&c13Abort, 0)
 	ctx.Rule("providers {sync.Pool, bounded cache with (writers, readers) capacity (0,0)/(1,1)/(2,1)/(8,3), custom mutex free-list} behind an instrumenting provider (ledger + trip-wire + history). (A) direct storms: g in {2,4,8} goroutines acquire, use and close a writer, then release together through a spin barrier. (B) storms through Dispatch/ServeHTTP with in-flight in {1,2,capacity,capacity+1,16,64,100} requests all held inside the handler at once, modes {normal (release barrier inside the compressor flush), failing underlying writer, panicking handler with recovery, gzip request bodies via ReadEntity read in 7-byte slices, broken request bodies, handler hijacking the connection, handlers that write no body (nothing, bare 204, zero-length Write), a route that opted out of content encoding, a container filter reading gzip entities of requests that end in 404/405 or at a HandleWithFilter handler, a recover handler that aborts the connection with panic(http.ErrAbortHandler) while the route's own encoding switch is on}; churn: goroutines acquire/use/release (directly and through Dispatch/ServeHTTP) back to back without barriers, so that acquires overlap releases. (C) second Close. (D) hand-over: objects of a previous provider are released into a provider before it has handed out anything (SetCompressorProvider while responses are in flight), then 10 writers of each coding and 10 readers are held at once. Every fifth storm request spells its Accept-Encoding in another letter case or with q-values / two codings. Oracle: no object handed out while held, each acquired object released exactly once, no write through a released writer, every response/request body decodes to its own payload, nobody parked forever in Release/Close (goroutine state), per-object acquire/release history linearizable against a mutex (porcupine). Race detector on. Non-trivial = a storm with >= 2 holders; distinct by (kind, provider, holders, entry, mode, coding).")
 	ctx.Assume("the ledger adds after the inner acquire and removes before the inner release: it cannot false-alarm on provider-internal ordering")
+	defer func() {
+		for _, b := range c13ConstructorBlocked {
+			ctx.Violation(-1, "c13:constructor-blocks", "creating the provider never returned (parked inside the library): "+b, map[string]interface{}{"blocked": b})
+		}
+		c13ConstructorBlocked = nil
+	}()
 	defer func() {
 		// after an abort goroutines of the unfinished storm may still be serving: the package-wide provider is left alone
 		if atomic.LoadInt32(&c13Abort) == 0 {
